@@ -46,6 +46,8 @@ pub static mut IN_HOOK: bool = false;
 pub static mut BUDGET: u8 = 0;
 pub static mut FIRED: u8 = 0;
 pub static mut POINTS: u32 = 0;
+/// bit i set: schedule points of site i may fire the interferer (default: all)
+pub static mut HOOK_SITES: u32 = 0xffff_ffff;
 
 /// per logical thread: how many locks of each class it holds, and the same as a bitmask (bit c = class c held)
 pub static mut HELD: [[u8; NCLASS]; NTHREAD] = [[0; NCLASS]; NTHREAD];
@@ -100,8 +102,10 @@ pub fn out_of_bound() {
 }
 
 pub fn set_hook(h: fn(u32), budget: u8) {
-    unsafe { HOOK = Some(h); BUDGET = budget; FIRED = 0; }
+    unsafe { HOOK = Some(h); BUDGET = budget; FIRED = 0; HOOK_SITES = 0xffff_ffff; }
 }
+/// restrict the placements of the interferer to the given sites (bitmask of 1 << S_*; S_USER is bit 7)
+pub fn set_hook_sites(mask: u32) { unsafe { HOOK_SITES = mask; } }
 pub fn clear_hook() {
     unsafe { HOOK = None; BUDGET = 0; }
 }
@@ -113,7 +117,7 @@ pub fn schedule_point(site: u32) {
     unsafe {
         POINTS += 1;
         if let Some(h) = HOOK {
-            if !IN_HOOK && BUDGET > 0 {
+            if !IN_HOOK && BUDGET > 0 && (HOOK_SITES >> (if site > 31 { 7 } else { site })) & 1 == 1 {
                 if any_bool() {
                     BUDGET -= 1;
                     FIRED += 1;
